@@ -4,7 +4,7 @@ D="/verif/seeded/$1"; shift
 [ -z "$(git -C /repo status --porcelain)" ] || { echo "/repo not clean"; exit 2; }
 git -C /repo apply "$D/patch.diff" || { echo "patch does not apply"; exit 2; }
 for id in "$@"; do
-  out=$(VCHECK_NO_FUZZ=1 /verif/check "$id" quick ${SEED:+--seed $SEED} ${CASES:+--cases $CASES} ${NOREG:+--no-regress} 2>/dev/null)
+  out=$(VCHECK_NO_FUZZ=1 VCHECK_NO_EVIDENCE=1 /verif/check "$id" quick ${SEED:+--seed $SEED} ${CASES:+--cases $CASES} ${NOREG:+--no-regress} 2>/dev/null)
   rc=$?
   echo "== $id exit $rc: $(echo "$out" | grep -c '^VIOLATION') violation line(s)"
   echo "$out" | grep "^violated clause" | cut -c1-260 | sort | uniq -c | sort -rn | head -4
